@@ -221,12 +221,19 @@ def run_job(job, io):
             rc_c = sys.getrefcount(inj)
             # Drift must repeat in the same direction to count: the collector lazily *untracks* nested tuples and
             # atomic dicts one level per full collection, so a shrinking object count is normal background.
+            # a reference to a scenario object that is still held after the failed call — even if a repetition does not add
+            # another one (a one-slot buffer that is only overwritten by the next call) — already breaks "reference counts
+            # are what they were before the call"; the refcount arrays have no background noise (only the gc object COUNT has)
+            retained = [(type(o).__name__, b, a, c) for o, b, a, c in zip(tracked, refs_b, refs_a, refs_c) if a > b and c >= a]
             grew = [(type(o).__name__, b, a, c) for o, b, a, c in zip(tracked, refs_b, refs_a, refs_c) if a > b and c > a]
             shrank = [(type(o).__name__, b, a, c) for o, b, a, c in zip(tracked, refs_b, refs_a, refs_c) if a < b and c < a]
             if grew or (n_a > n_b and n_c > n_a) or (rc_a > rc_b and rc_c > rc_a):
                 leak = ('leak', 'reference counts grow with every failed call: objects (type, before, after 1st, after 2nd) %r; '
                         'live gc objects %d -> %d -> %d; injected exception refcount %d -> %d -> %d'
                         % (grew[:6], n_b, n_a, n_c, rc_b, rc_a, rc_c))
+            elif retained:
+                leak = ('retained', 'a reference to %d scenario object(s) is still held after the failed call (bounded: a repetition does '
+                        'not add another): (type, before, after 1st, after 2nd) %r' % (len(retained), retained[:6]))
             elif shrank:
                 leak = ('over-release', 'reference counts shrink with every failed call: objects (type, before, after 1st, '
                         'after 2nd) %r' % (shrank[:6],))
